@@ -48,6 +48,25 @@ Theorem C36_roundtrip_identity_abs_root : forall root name,
 Proof. exact Proof.C36.roundtrip_ident_abs_root. Qed.
 Print Assumptions C36_roundtrip_identity_abs_root.
 
+(* identity: every root (relative ones too) that does not clean to "." *)
+Theorem C36_roundtrip_identity_any_root : forall root name,
+  negb (str_eqb (clean root) [dot]) = true -> valid_ident_name name = true ->
+  exists bp, roundtrip SIdent root name = (Ok bp, Ok name).
+Proof. exact Proof.C36.roundtrip_ident_any_root. Qed.
+Print Assumptions C36_roundtrip_identity_any_root.
+
+(* identity: whatever NameFromBlobPath returns is what followed the cleaned root *)
+Theorem C36_identity_extract_sound : forall root bp n,
+  name_from_path_ident root bp = Ok n -> bp = trim_slash (clean root) ++ slash :: n.
+Proof. exact Proof.C36.ident_extract_sound. Qed.
+Print Assumptions C36_identity_extract_sound.
+
+(* the fixed code never panics, whatever the root, name or path *)
+Theorem C36_no_panic : forall sch root name bp,
+  blob_path sch root name <> Panic /\ name_from_path sch root bp <> Panic.
+Proof. exact Proof.C36.no_panic. Qed.
+Print Assumptions C36_no_panic.
+
 (* "listings report the names that were uploaded": distinct valid names never share a path *)
 Theorem C36_blob_path_injective : forall sch root n1 n2 bp,
   valid_root root = true -> valid_name sch n1 = true -> valid_name sch n2 = true ->
